@@ -79,6 +79,11 @@ def run(ctx: core.Ctx) -> int:
         n = len(c["rows"])
         c["cuts"] = sorted({rng.randint(1, n) for _ in range(3)})
         cases.append(c)
+    for k in range(ctx.n(24, 240)):
+        c = E.gen_pattern_base_case(rng, ctx, k)
+        n = len(c["rows"])
+        c["cuts"] = sorted({rng.randint(1, n) for _ in range(2)} | {rng.randint(3, 10)})
+        cases.append(c)
     for i, c in enumerate(cases):
         ctx.count("eval_falsifier")
         falsify(ctx, c)
